@@ -41,7 +41,7 @@ ROWS = 40
 
 def cases(tier, seed):
     sz = SIZES[tier]
-    out = []
+    out = [("lifecycle", tier, 0, 0)]
     for kind in ("ops", "inst", "sops", "scheds"):
         n = sz[kind]
         for lo in range(0, n, ROWS):
@@ -196,6 +196,9 @@ def classify(kind, ca, cb):
 def run_case(case) -> Res:
     kind, tier, lo, hi = case
     res = Res()
+    if kind == "lifecycle":
+        run_lifecycle(res, tier)
+        return res
     if kind.endswith("-triples"):
         run_triples(res, kind[: -len("-triples")], tier, hi)
         return res
@@ -267,3 +270,60 @@ def run_triples(res, kind, tier, n):
     res.add("transitions", k * k)
     res.add("nontrivial", k * k - k)
     res.add("states", k)
+
+
+def run_lifecycle(res, tier):
+    """Equality / hash must follow the CURRENT content of an object: operations
+    hashed or compared before they are placed in an instance, operations reused
+    in a second instance, and operations changed in place after a comparison."""
+    check = "equality_follows_current_content"
+    from job_shop_lib import JobShopInstance, Operation
+
+    specs = [s for s in small_specs() if F.n_ops(s) >= 2]
+    if tier == "quick":
+        specs = specs[::3]
+    for spec in specs:
+        res.add("evaluations", 3)
+        res.add("nontrivial", 3)
+        res.add("transitions", 6)
+        res.add("states")
+        res.add("traces")
+        mk = lambda: [[Operation(ms[0] if len(ms) == 1 else list(ms), d) for ms, d in job] for job in spec]  # noqa: E731
+        # 1. hashed and compared while still detached, then placed in an instance
+        jobs_a = mk()
+        for job in jobs_a:
+            for op in job:
+                hash(op)
+                op == op  # noqa: B015
+        a = JobShopInstance(jobs_a)
+        b = impl.mk_instance(spec)
+        for ja, jb in zip(a.jobs, b.jobs):
+            for oa, ob in zip(ja, jb):
+                if not (oa == ob) or not (ob == oa):
+                    res.violation(check, "same-content-not-equal-after-early-hash", spec=spec, op=op_content(oa))
+                elif hash(oa) != hash(ob):
+                    res.violation(check, "equal-but-different-hash-after-early-hash", spec=spec, op=op_content(oa))
+        if not (a == b):
+            res.violation(check, "instances-not-equal-after-early-hash", spec=spec)
+        # 2. the same operation objects reused in a second instance with the job order reversed
+        c = JobShopInstance(list(reversed(jobs_a)))
+        rev = tuple(reversed(spec))
+        d = impl.mk_instance(rev)
+        for jc, jd in zip(c.jobs, d.jobs):
+            for oc, od in zip(jc, jd):
+                if not (oc == od):
+                    res.violation(check, "same-content-not-equal-after-reuse", spec=rev, op=op_content(oc))
+                elif hash(oc) != hash(od):
+                    res.violation(check, "equal-but-different-hash-after-reuse", spec=rev, op=op_content(oc))
+        # 3. compared, then changed in place, then compared again
+        e, f = impl.mk_instance(spec), impl.mk_instance(spec)
+        if not (e == f):
+            res.violation(check, "independently-built-copy-not-equal", spec=spec)
+        e.jobs[-1][-1].duration += 1
+        changed = tuple(tuple((ms, dd + (1 if (j == len(spec) - 1 and p == len(job) - 1) else 0)) for p, (ms, dd) in enumerate(job)) for j, job in enumerate(spec))
+        g = impl.mk_instance(changed)
+        if e == f or f == e:
+            res.violation(check, "equal-after-duration-changed-in-place", spec=spec, changed=changed)
+        if not (e == g) or not (g == e):
+            res.violation(check, "not-equal-to-fresh-instance-with-the-new-content", spec=spec, changed=changed)
+    res.sample({"lifecycle_cases": len(specs), "steps": ["hash/compare detached operations, then build the instance", "reuse the operation objects in a second instance", "compare, change a duration in place, compare again"]})
